@@ -1534,8 +1534,14 @@ impl Node {
     /// but may be useful if switching to a new persister.
     pub fn persist_all(&self) {
         let persister = &self.persister;
-        let state = self.get_state();
-        persister.new_node(&self.get_id(), &self.node_config, &*state).unwrap();
+        // The node state lock is released before the channels and the tracker are locked:
+        // channel and on-chain requests take the node state while they hold those locks.
+        {
+            let state = self.get_state();
+            persister.new_node(&self.get_id(), &self.node_config, &*state).unwrap();
+            let wlvec = state.allowlist.iter().map(|a| a.to_string(self.network())).collect();
+            persister.update_node_allowlist(&self.get_id(), wlvec).unwrap();
+        }
         for channel in self.get_channels().values() {
             let channel = channel.lock().unwrap();
             match &*channel {
@@ -1546,8 +1552,6 @@ impl Node {
             }
         }
         persister.update_tracker(&self.get_id(), &self.get_tracker()).unwrap();
-        let wlvec = state.allowlist.iter().map(|a| a.to_string(self.network())).collect();
-        self.persister.update_node_allowlist(&self.get_id(), wlvec).unwrap();
     }
 
     /// Get the node ID, which is the same as the node public key
